@@ -138,7 +138,10 @@ def run(module, cfg_text=None, cfg_path=None, workers=None, dump=False, coverage
             shutil.copy(os.path.join(SPEC_DIR, module + ".cfg"), cfg)
         if workers is None:
             workers = 8
-        cmd = ["java", "-XX:+UseParallelGC", "-Xmx6g", "-Xss64m"]
+        # TLC unpacks its standard modules into java.io.tmpdir: keep them inside the scratch directory, removed with it
+        jtmp = os.path.join(scratch, "jtmp")
+        os.makedirs(jtmp, exist_ok=True)
+        cmd = ["java", "-XX:+UseParallelGC", "-Xmx6g", "-Xss64m", "-Djava.io.tmpdir=" + jtmp]
         if deque:
             cmd.append("-Dtlc2.tool.queue.IStateQueue=StateDeque")
         cmd += ["-cp", JAR, "tlc2.TLC", "-workers", str(workers), "-metadir", os.path.join(scratch, "meta"),
@@ -298,8 +301,12 @@ def parse_sim_trace(path):
 
 
 def sany(module_path):
-    proc = subprocess.run(["java", "-cp", JAR, "tla2sany.SANY", module_path], capture_output=True, text=True,
-                          cwd=os.path.dirname(module_path))
+    jtmp = tempfile.mkdtemp(prefix="verif-sany-")
+    try:
+        proc = subprocess.run(["java", "-Djava.io.tmpdir=" + jtmp, "-cp", JAR, "tla2sany.SANY", module_path], capture_output=True,
+                              text=True, cwd=os.path.dirname(module_path))
+    finally:
+        shutil.rmtree(jtmp, ignore_errors=True)
     ok = proc.returncode == 0 and "Semantic errors" not in proc.stdout and "Parse Error" not in proc.stdout \
         and "*** Errors" not in proc.stdout
     return ok, proc.stdout + proc.stderr
